@@ -228,14 +228,23 @@ func (ex *exec) describeBlocked() string {
 	return s
 }
 
-// yield is called before every visible operation in threaded mode.
-func (ex *exec) yield() {
+// yield is called before every visible operation in threaded mode (a write-like operation).
+func (ex *exec) yield() { ex.yieldK(true, true) }
+
+// yieldK: write=false for pure reads (atomic loads): they do not wake sleepers and do not mark the
+// thread as having changed state. preempt=false: no switch point (only blocking switches there).
+func (ex *exec) yieldK(write, preempt bool) {
 	if !ex.threaded() {
 		return
 	}
-	ex.visibleSeq++
 	cur := ex.cur
-	cur.dirty = true
+	if write {
+		ex.visibleSeq++
+		cur.dirty = true
+	}
+	if !preempt {
+		return
+	}
 	next := ex.pickNext(cur, true)
 	if next != cur {
 		ex.switchTo(cur, next, false)
@@ -277,21 +286,19 @@ func (ex *exec) sleep() {
 		return
 	}
 	cur := ex.cur
-	wasDirty := cur.dirty
-	cur.dirty = false
-	ex.visibleSeq++
-	seq := ex.visibleSeq
-	if wasDirty {
-		// an iteration that changed something is followed by another look; still a switch point
+	if ex.visibleSeq != cur.seenSeq {
+		// something changed since this thread last woke up (by itself or by others): the next
+		// iteration will look again; the sleep is still a switch point
 		next := ex.pickNext(cur, true)
 		if next != cur {
 			ex.switchTo(cur, next, false)
 		}
-		cur.dirty = false
+		cur.seenSeq = ex.visibleSeq
 		return
 	}
+	seq := cur.seenSeq
 	ex.block(func() bool { return ex.visibleSeq != seq }, "time.Sleep in a poll loop with nothing left to change (livelock)")
-	cur.dirty = false
+	cur.seenSeq = ex.visibleSeq
 }
 
 // killThreads ends all parked threads at the end of a path.
@@ -450,7 +457,7 @@ func (ex *exec) mutex(p *value) *mutexState {
 }
 
 func (ex *exec) lock(p *value, what string) {
-	ex.yield()
+	ex.yieldK(true, ex.cfg.bounds["preempt_sync"] == 1)
 	m := ex.mutex(p)
 	if !ex.threaded() && (m.w || m.r > 0) {
 		panic(pathEnd{"deadlock", "self-deadlock: " + what + " while the same mutex is already held"})
@@ -461,7 +468,7 @@ func (ex *exec) lock(p *value, what string) {
 }
 
 func (ex *exec) unlock(p *value) {
-	ex.yield()
+	ex.yieldK(true, ex.cfg.bounds["preempt_sync"] == 1)
 	m := ex.mutex(p)
 	if !m.w {
 		panic("fatal error: sync: unlock of unlocked mutex")
@@ -471,7 +478,7 @@ func (ex *exec) unlock(p *value) {
 }
 
 func (ex *exec) rlock(p *value, what string) {
-	ex.yield()
+	ex.yieldK(true, ex.cfg.bounds["preempt_sync"] == 1)
 	m := ex.mutex(p)
 	if !ex.threaded() && m.w {
 		panic(pathEnd{"deadlock", "self-deadlock: " + what + " while the write lock is held"})
@@ -482,7 +489,7 @@ func (ex *exec) rlock(p *value, what string) {
 }
 
 func (ex *exec) runlock(p *value) {
-	ex.yield()
+	ex.yieldK(true, ex.cfg.bounds["preempt_sync"] == 1)
 	m := ex.mutex(p)
 	if m.r <= 0 {
 		panic("fatal error: sync: RUnlock of unlocked RWMutex")
